@@ -5,6 +5,8 @@ CONSTANTS
   Initials <- SmallInitials
   Replies <- SubsetReplies
   Mins <- SmallMins
+  ValClasses = {0, 1, 2, 3}
+  VModes = {2}
   Orig = FALSE
   MaxReply = 0
   MaxInitLen = 0
